@@ -26,7 +26,7 @@ class VerusResult:
         self.rlimit_hit = []
 
 
-VERIF_MSG = re.compile(r'postcondition not satisfied|precondition not satisfied|invariant not satisfied|'
+VERIF_MSG = re.compile(r'postcondition not satisfied|precondition not satisfied|precondition not met|invariant not satisfied|'
                        r'assertion failed|possible arithmetic underflow/overflow|possible division by zero|'
                        r'decreases not satisfied|could not prove termination|loop invariant not satisfied|'
                        r'possible bit shift|recommendation not met|unreachable|'
